@@ -135,6 +135,7 @@ type VC struct {
 	retsP          *[]inlRet
 	splitOK        bool
 	knownOpen      map[string]bool
+	crossCheck     bool
 	rootOf         *VC
 	pending        []branchOut
 	workDir        string
